@@ -17,13 +17,24 @@ enum vp_kind { VP_NONE = 0, %s };
 struct vp_fn { enum vp_kind kind; unsigned np; unsigned p[6]; };
 struct vp_eval { struct vp_fn eval_ptr, v_eval_ptr; };
 #define VP_FN(kind, np, ...) ((struct vp_fn){ kind, np, { __VA_ARGS__ } })
-/* R10: detail::orders_are(*this, {...}) transcribed (range-for over an initializer_list) */
-static bool vp_orders_are(unsigned n, const unsigned* o) {
-	if (n != ndim) return false;
-	for (unsigned i = 0; i < n; i++) if (order[i] != o[i]) return false;
-	return true;
-}
+#define VP_TABLE_ORDER(i) (order[i])
 ''' % ", ".join("VP_K_" + k for k in KINDS)
+
+def extract_orders_are():
+    """R10b: detail::orders_are extracted mechanically: the initializer_list becomes (n, pointer), the table
+    accessors become the file-scope members, the range-for becomes a pointer loop"""
+    s = units.src(units.EVAL_H)
+    start, header, body, end = X.find_function(s, r"bool\s+orders_are\s*\(")
+    r = X.Rules()
+    body = X.strip_comments(body)
+    body = r.sub("R10b_size", r"orders\.size\(\)", "n", body, must_fire=True)
+    body = r.sub("R10b_ndim", r"spline\.get_ndim\(\)", "ndim", body, must_fire=True)
+    body = r.sub("R10b_get_order", r"spline\.get_order\(", "VP_TABLE_ORDER(", body, must_fire=True)
+    body = r.sub("R10b_range_for", r"for\s*\(\s*auto\s+order\s*:\s*orders\s*\)", "for (const unsigned* vp_p = o; vp_p != o + n; vp_p++)", body, must_fire=True)
+    body = r.sub("R10b_range_var", r"(?<![A-Za-z0-9_])order(?![A-Za-z0-9_\[])", "(*vp_p)", body, must_fire=True)
+    INFO2.update(dict(function="detail::orders_are", file=units.EVAL_H, sha_extracted=X.sha(body), rules_fired=r.counts))
+    return "static bool vp_orders_are(unsigned n, const unsigned* o)\n" + body + "\n"
+INFO2 = {}
 
 def extract():
     s = units.src(units.EVAL_H)
@@ -74,7 +85,7 @@ def jobs(thorough):
     ct, nreal, ncan = contract(NDMAX)
     js = []
     for notempl in (False, True):
-        tu = PRE + ct + body + "void h_get_evaluator(void){ get_evaluator(); __CPROVER_assert(0, \"canary: reachable after call\"); }\n"
+        tu = PRE + extract_orders_are() + ct + body + "void h_get_evaluator(void){ get_evaluator(); __CPROVER_assert(0, \"canary: reachable after call\"); }\n"
         canpat = [r"^h_get_evaluator\.assertion\.1$"] + ([r"^get_evaluator\.postcondition\.(%s)$" % "|".join(str(nreal + 1 + k) for k in range(ncan))] if not notempl else [r"^get_evaluator\.postcondition\.%d$" % (nreal + 1)])
         js.append(vlib.Job("C03-get_evaluator%s" % ("-NO_EVAL_TEMPLATES" if notempl else ""), tu, "h_get_evaluator", enforce="get_evaluator", loop_contracts=False,
                            unwind_fns=[("get_evaluator", NDMAX + 1), ("vp_orders_are", 8)], cc_flags=["-DPHOTOSPLINE_NO_EVAL_TEMPLATES"] if notempl else [],
